@@ -57,21 +57,21 @@ Section CrossWhole.
 
   (* gridded total >= trajectory total for a trajectory that crosses the antimeridian ONCE (repaired fraction
      rule and repaired zero-length split), any pseudo-metric, any grid *)
-  Theorem grid_total_ge_crossing clamp fixdl glat glon (pts : list Rpoint) (var : list R) :
+  Theorem grid_total_ge_crossing clamp fixdl fixe glat glon (pts : list Rpoint) (var : list R) :
     count_nonzero (@crossings RNum (map snd pts)) = 1%nat ->
     length var = length (pairs pts) ->
     Forall (fun v => 0 <= v) var ->
-    forall out, @grid_integrated RNum dist clamp true fixdl true glat glon pts [var] = [out] ->
+    forall out, @grid_integrated RNum dist clamp true fixdl fixe true glat glon pts [var] = [out] ->
                 Rsum var <= Rsum out.
   Proof.
     intros H Hl Hv out E. unfold grid_integrated in E.
-    rewrite (crossing_parts clamp fixdl glat glon [] [] pts None None [] H) in E.
+    rewrite (crossing_parts clamp fixdl fixe glat glon [] [] pts None None [] H) in E.
     cbn [map] in E. rewrite !part_run_geom in E.
     set (cr := @crossings RNum (map snd pts)) in *.
     set (i := first_nonzero cr O) in *.
     set (sg := nth i cr 0%Z) in *.
-    set (X := (@crossing_lat RNum fixdl sg (nth i pts (0, 0)) (nth (S i) pts (0, 0)), @exit_lon RNum sg)) in *.
-    set (X' := (@crossing_lat RNum fixdl sg (nth i pts (0, 0)) (nth (S i) pts (0, 0)), @entry_lon RNum sg)) in *.
+    set (X := (@crossing_lat RNum fixdl fixe sg (nth i pts (0, 0)) (nth (S i) pts (0, 0)), @exit_lon RNum sg)) in *.
+    set (X' := (@crossing_lat RNum fixdl fixe sg (nth i pts (0, 0)) (nth (S i) pts (0, 0)), @entry_lon RNum sg)) in *.
     assert (Hi : (i < length var)%nat).
     { pose proof (first_nonzero_lt cr O) as F. rewrite H in F. specialize (F (le_n 1)).
       unfold cr, crossings in F. rewrite map_length, pairs_length, map_length in F.
@@ -212,7 +212,7 @@ Qed.
 
 Theorem ex_four_pieces_exact :
   exists out,
-    @grid_integrated RNum f3_dist false true true true ex_grid ex_grid ex_pts [[6]] = [out] /\
+    @grid_integrated RNum f3_dist false true true true true ex_grid ex_grid ex_pts [[6]] = [out] /\
     length out = 4%nat /\ Rsum out = 6.
 Proof.
   eexists. split; [rewrite grid_integrated_no_crossing by exact ex_no_crossing; cbn [map]; reflexivity|].
